@@ -85,10 +85,9 @@ def run(ctx):
     c01.check_public(ctx, lits)
     ctx.rule('C01.6', 'the kernel displacement vanishes at both window ends')
     c03.check_profile(ctx, rule_prefix='C01', only_ends=True)
-    c10.check_scans(ctx, kinds=('closest',))
+    c10.check_scans(ctx, kinds=('closest',), fill_true_only=True)
     # C02.4 averaging
     ctx.rule('C02.4', 'averaging view (C17.4 / C17.6): row means ignoring the tail padding, first column of the same row-major view of x')
-    c17.check_interval(ctx)
     c17.check_average(ctx)
     c17.check_rules(ctx)
     ctx.notes.append('NOT DECIDED: the numerical equality of the averages (it follows over the reals from the C01 / C04 / C17 clauses; not re-derived); datasets as inputs.')
